@@ -127,6 +127,46 @@ pub struct Interp {
     pub events: std::collections::BTreeSet<&'static str>,
 }
 
+/// Is `v` a value of the written type `t`, as far as that can be told without resolving names
+/// (primitives, tuples by name/labels/arity, unions of those)? `None` = cannot tell.
+fn shallow_member(v: &V, t: &ast::Type) -> Option<bool> {
+    match t {
+        ast::Type::Primitive(ast::PrimitiveType::Int) => Some(matches!(v, V::Int(_))),
+        ast::Type::Primitive(ast::PrimitiveType::Bin) => Some(matches!(v, V::Bin(_))),
+        ast::Type::Tuple(tt) if !tt.is_partial => {
+            let V::Tup(name, fields) = v else { return Some(false) };
+            if *name != tt.name || fields.len() != tt.fields.len() {
+                // a name may also be an alias reference: only a structural mismatch is certain
+                return if tt.name == *name { Some(false) } else { None };
+            }
+            let mut all = Some(true);
+            for ((label, fv), ft) in fields.iter().zip(tt.fields.iter()) {
+                let ast::FieldType::Field { name, type_def } = ft else { return None };
+                if name != label {
+                    return None;
+                }
+                match shallow_member(fv, type_def) {
+                    Some(true) => {}
+                    Some(false) => return Some(false),
+                    None => all = None,
+                }
+            }
+            all
+        }
+        ast::Type::Union(u) => {
+            let answers: Vec<Option<bool>> = u.types.iter().map(|t| shallow_member(v, t)).collect();
+            if answers.iter().any(|a| *a == Some(true)) {
+                Some(true)
+            } else if answers.iter().all(|a| *a == Some(false)) {
+                Some(false)
+            } else {
+                None
+            }
+        }
+        _ => None,
+    }
+}
+
 fn is_nil_type(t: &ast::Type) -> bool {
     matches!(t, ast::Type::Tuple(tt) if tt.name.is_none() && tt.fields.is_empty() && !tt.is_partial)
 }
@@ -502,7 +542,6 @@ impl Interp {
                 }
             }
             Some(AccessSource::TailCall(target)) => {
-                self.events.insert("tail");
                 let callee = match target {
                     None => {
                         if !a.accessors.is_empty() {
@@ -521,6 +560,14 @@ impl Interp {
                 if env.current.is_none() {
                     return abstain("tail call outside a function");
                 }
+                // "tail-arg-ok": a *self* tail call (for which `never` is the right type; `^g` should
+                // have g's result type) whose argument certainly is of the written parameter type
+                let arg_ok = target.is_none()
+                    && match &callee {
+                        V::Fun(c) => c.func.parameter_type.as_ref().and_then(|t| shallow_member(&flow, t)) == Some(true),
+                        _ => false,
+                    };
+                self.events.insert(if arg_ok { "tail-arg-ok" } else { "tail" });
                 let v = match &callee {
                     // `^` passes the flowing value as is (A6); a nilary target gets nil
                     V::Fun(_) => self.apply(&callee, flow)?,
